@@ -190,6 +190,63 @@ func ruleC15(c *Ctx) {
 	checkReturnIs(c, "WRAPPERS", "Read", w.fn("io/polyjson", "Read"), 0, "call[poly/io/polyjson.Parse](extract[0](call[os.ReadFile](param[0])))", "Read(path) = Parse(ReadFile(path))")
 	checkFileWrite(c, "WRAPPERS", "Write", w.fn("io/polyjson", "Write"), 1, `extract[0](call[encoding/json.MarshalIndent](param[0], const[""], const[" "]))`)
 
+	// the JSON document is never edited as text: a substitution on the serialised bytes (or on the input
+	// before decoding) cannot tell structure from the content of string values
+	nSub := 0
+	for _, root := range []*ssa.Function{w.fn("io/polyjson", "Write"), w.fn("io/polyjson", "Parse"), w.fn("io/polyjson", "Read")} {
+		if root == nil {
+			continue
+		}
+		for _, g := range family(root) {
+			g := g
+			eachInstr(g, func(i ssa.Instruction) {
+				cl, ok := i.(*ssa.Call)
+				if !ok {
+					return
+				}
+				n := calleeName(cl)
+				isSub := n == "bytes.ReplaceAll" || n == "bytes.Replace" || n == "strings.ReplaceAll" || n == "strings.Replace" || strings.HasPrefix(n, "(*regexp.Regexp).ReplaceAll") || n == "(*strings.Replacer).Replace"
+				if !isSub {
+					return
+				}
+				// does the result reach a file write or the decoder?
+				seen := map[ssa.Value]bool{}
+				work := []ssa.Value{cl}
+				sink := ""
+				for len(work) > 0 && sink == "" {
+					v := work[len(work)-1]
+					work = work[:len(work)-1]
+					if seen[v] || v.Referrers() == nil {
+						continue
+					}
+					seen[v] = true
+					for _, r := range *v.Referrers() {
+						switch x := r.(type) {
+						case *ssa.Phi, *ssa.Convert, *ssa.ChangeType, *ssa.Slice, *ssa.MakeInterface:
+							work = append(work, x.(ssa.Value))
+						case *ssa.Call:
+							switch m := calleeName(x); {
+							case m == "encoding/json.Unmarshal" || m == "os.WriteFile" || m == "io/ioutil.WriteFile" || strings.HasSuffix(m, ").Write") || m == "(*encoding/json.Decoder).Decode":
+								sink = m
+							case m == n:
+								work = append(work, x) // a chain of substitutions
+							}
+						case *ssa.Return:
+							sink = "the caller"
+						}
+					}
+				}
+				if sink != "" && sink != "the caller" {
+					nSub++
+					c.bad("WRAPPERS", "JSON text is not edited:"+strings.TrimPrefix(fname(g), "poly/"), cl.Pos(), fmt.Sprintf("%s rewrites the JSON document as text with %s before it reaches %s: a substitution on the bytes also hits the same characters inside string values (sequence descriptions, qualifiers), so such values come back changed or the document stops being valid JSON", strings.TrimPrefix(fname(g), "poly/"), n, sink))
+				}
+			})
+		}
+	}
+	if nSub == 0 {
+		c.ok("WRAPPERS", "JSON text is not edited", parse.Pos(), "no text substitution is applied to the serialised document or to the input before decoding")
+	}
+
 	// MAPORDER prerequisite
 	var fs []*ssa.Function
 	for _, r := range []*ssa.Function{w.fn("io/genbank", "Build"), w.fn("io/gff", "Build")} {
@@ -265,6 +322,33 @@ func checkJSONRelink(c *Ctx, parse *ssa.Function, seqT types.Type) {
 					}
 				}
 			})
+			// ... or through another function of the module that is handed the sequence (a batch AddFeatures):
+			// any module callee, reached from Parse, whose own code stores a ParentSequence
+			if !linked {
+				view.each(func(g *ssa.Function, i ssa.Instruction) {
+					ci, ok := i.(ssa.CallInstruction)
+					if !ok {
+						return
+					}
+					callee := ci.Common().StaticCallee()
+					if callee == nil || !inModule(callee) || callee.Blocks == nil {
+						return
+					}
+					for cf := range reachable(callee) {
+						if !inModule(cf) || cf.Blocks == nil {
+							continue
+						}
+						eachInstr(cf, func(j ssa.Instruction) {
+							if stx, ok := j.(*ssa.Store); ok {
+								if fa, ok := stx.Addr.(*ssa.FieldAddr); ok && storeFieldName(fa) == "ParentSequence" {
+									linked = true
+									st, why = unknown, "the features are handed to "+calleeName(ci)+", which assigns ParentSequence; whether every decoded feature gets there is not followed"
+								}
+							}
+						})
+					}
+				})
+			}
 			if !linked {
 				st, why = broken, "the decoded features are never re-added with AddFeature (nor is their ParentSequence assigned): it stays nil (json:\"-\"), so GetSequence fails on every feature read from JSON"
 			}
